@@ -101,6 +101,10 @@ type State struct {
 	OrderPick  int // -1 undecided, 0 forward, 1 reverse (mode 1)
 	Counters   map[string]int
 	Depth      int // number of forks on this path
+	Assumed    []*Term // harness assumptions and assertions proved from them alone (no branch decisions)
+	NBranch    int     // number of branch decisions / concretisations in the path condition
+	Lemmas     map[int]bool // proved assertions in PC (implied by the rest; skipped in feasibility queries)
+	lemOwned   bool
 }
 
 var epochSeq int
@@ -143,9 +147,12 @@ func (st *State) Clone() *State {
 	c.PC = st.PC[:len(st.PC):len(st.PC)]
 	st.PC = st.PC[:len(st.PC):len(st.PC)]
 	st.factsOwned, c.factsOwned = false, false
+	st.lemOwned, c.lemOwned = false, false
 	st.globOwned, c.globOwned = false, false
 	c.Log = st.Log[:len(st.Log):len(st.Log)]
 	st.Log = st.Log[:len(st.Log):len(st.Log)]
+	c.Assumed = st.Assumed[:len(st.Assumed):len(st.Assumed)]
+	st.Assumed = st.Assumed[:len(st.Assumed):len(st.Assumed)]
 	c.Choices = st.Choices[:len(st.Choices):len(st.Choices)]
 	st.Choices = st.Choices[:len(st.Choices):len(st.Choices)]
 	c.Reached = map[string]bool{}
@@ -313,4 +320,36 @@ func (st *State) end(kind, msg string) {
 	st.Done = true
 	st.EndKind = kind
 	st.EndMsg = msg
+}
+
+func (st *State) addLemma(c *Term) {
+	if !st.lemOwned {
+		n := make(map[int]bool, len(st.Lemmas)+4)
+		for k, v := range st.Lemmas {
+			n[k] = v
+		}
+		st.Lemmas = n
+		st.lemOwned = true
+	}
+	if c.Op == OAnd {
+		for _, a := range c.Args {
+			st.Lemmas[a.ID] = true
+		}
+	}
+	st.Lemmas[c.ID] = true
+}
+
+// feasPC is the path condition without the proved assertions (they are
+// implied by the remaining conjuncts, so feasibility answers are unchanged).
+func (st *State) feasPC() []*Term {
+	if len(st.Lemmas) == 0 {
+		return st.PC
+	}
+	out := make([]*Term, 0, len(st.PC))
+	for _, c := range st.PC {
+		if !st.Lemmas[c.ID] {
+			out = append(out, c)
+		}
+	}
+	return out
 }
